@@ -58,6 +58,8 @@ def check_case(case, acc):
             if pos not in bounds:
                 why, sig = 'a sub-element is split between two carriers', 'c12.packing.split'
                 break
+    if not why and used_bits != bits[:len(used_bits)]:
+        why, sig = 'the carriers used are not the lowest configured carrier elements', 'c12.packing.carrier_order'
     if why:
         acc.viol(sig, case, '%s: carrier lengths %s on elements %s' % (why, [len(c) for c in got_carriers], used_bits),
                  'e.g. carrier lengths %s on elements %s' % ([len(c) for c in want_carriers],
@@ -158,8 +160,12 @@ def families(tier):
 def tasks(tier, seed):
     combos = [('PKG', 'latin_1'), ('PKG', 'cp500'), ('GEN%d' % (seed % 14), 'latin_1'),
               ('GEN%d' % ((seed + 3) % 14), 'cp037')]
+    # the same configurations handed over with their keys in string-sorted order ('123' < '124' < '48' < '62'), as
+    # a configuration loaded from JSON written with sort_keys has them: "ascending element order" is numeric
+    combos += [('PKGS', 'latin_1'), ('GEN%dS' % (seed % 14), 'cp500')]
     if tier == 'thorough':
         combos += [('PKG', 'cp037'), ('PKG', 'ascii')] + [('GEN%d' % s, 'cp500') for s in range(14)]
+        combos += [('GEN%dS' % s, 'latin_1') for s in range(14)]
     ts = []
     for name, sets in families(tier):
         for cfgname, enc in combos:
